@@ -58,7 +58,7 @@ def run(ctx):
 
     inv = lock_fields(ctx)
     classes = set(inv.values())
-    ctx.floor("R18.1", "lock-typed fields in the crate's ADTs", len(inv), 8)
+    ctx.floor("R18.1", "lock-typed fields in the crate's ADTs", len(inv), 6)
     unknown = sorted(c for c in classes if c.startswith("?"))
     ctx.check(not unknown, "R18.1", "lock-classes-known", "every lock field maps to a known lock class", detail=str(unknown))
     ctx.check(EXPECTED_CLASSES <= classes, "R18.1", "lock-classes-complete",
@@ -88,7 +88,7 @@ def run(ctx):
         if h != a:
             ctx.ok("R18.2", "edge|%s->%s" % (h, a), "lock-order edge observed at %d site(s)" % len(sites), sites[0][0].where(sites[0][1]),
                    "; ".join(sorted({s[0].name.split("cache::")[-1] for s in sites}))[:300])
-    ctx.floor("R18.2", "lock-order edges (sanity: the analysis sees nested acquisitions)", len([e for e in edges if e[0] != e[1]]), 6)
+    ctx.floor("R18.2", "lock-order edges (sanity: the analysis sees nested acquisitions)", len([e for e in edges if e[0] != e[1]]), 4)
 
     # R18.3
     for f, bb, callee, w, held in blocking_under_guard:
